@@ -1,0 +1,13 @@
+//go:build verif
+
+package window
+
+import "github.com/rulego/streamsql/types"
+
+// slotStartMs projects a slot's start to Unix milliseconds for verification hooks (-1 when unset).
+func slotStartMs(s *types.TimeSlot) int64 {
+	if s == nil || s.Start == nil {
+		return -1
+	}
+	return s.Start.UnixMilli()
+}
